@@ -11,6 +11,10 @@ if "--round2" in args:
     args.remove("--round2")
     root = "/tmp/seed2"
     rename = {"A": "C", "B": "D"}
+if "--round5" in args:
+    args.remove("--round5")
+    root = "/tmp/seed5"
+    rename = {"A": "I", "B": "J"}
 if "--round4" in args:
     args.remove("--round4")
     root = "/tmp/seed4"
